@@ -13,8 +13,30 @@ from . import facts
 from .facts import VERIF, AnalysisError
 
 
+def header_of(diff):
+    """`# property=C08,C09 expect=silent what=...` -> dict"""
+    try:
+        first = open(diff).readline()
+    except OSError:
+        return {}
+    if not first.startswith("#"):
+        return {}
+    out = {}
+    head, _, what = first[1:].partition("what=")
+    for tok in head.split():
+        if "=" in tok:
+            k, v = tok.split("=", 1)
+            out[k] = v
+    out["what"] = what.strip()
+    return out
+
+
 def variant_files(prop):
     out = sorted(glob.glob(os.path.join(VERIF, "mutants", prop.lower(), "*.diff")))
+    # behaviour-preserving refactors this property's check must stay silent on
+    for f in sorted(glob.glob(os.path.join(VERIF, "mutants", "neutral", "*.diff"))):
+        if prop in header_of(f).get("property", "").split(","):
+            out.append(f)
     for meta in sorted(glob.glob(os.path.join(VERIF, "seeded", "*", "meta.json"))):
         try:
             m = json.load(open(meta))
@@ -43,6 +65,8 @@ def run_variant(prop, diff, worker, repo="/repo"):
         r = subprocess.run([os.path.join(VERIF, "bin", "check"), prop, "--repo", dst, "--no-evidence", "--no-fixture"], capture_output=True, text=True, cwd=VERIF, env=env)
         keys = [l.split("key=", 1)[1].strip() for l in r.stdout.splitlines() if l.strip().startswith("rule=") and "key=" in l]
         res = {0: "blind", 1: "fired", 2: "error"}.get(r.returncode, "error")
+        if header_of(diff).get("expect") == "silent":
+            res = {0: "silent", 1: "false-alarm", 2: "error"}.get(r.returncode, "error")
         out = {"variant": os.path.relpath(diff, VERIF), "result": res, "keys": keys[:6], "s": round(time.time() - t0, 1)}
         if res == "error":
             out["why"] = (r.stdout.strip().splitlines() or ["?"])[-1][:300]
@@ -84,11 +108,13 @@ def thorough_extras(mod, ctx, repo):
         import random
         random.Random(seed).shuffle(files)
     res = run_variants(ctx.prop, files, workers=int(os.environ.get("CTE_WORKERS", "8")), repo=repo or "/repo")
-    summ = {"fired": 0, "blind": 0, "skipped": 0, "error": 0}
+    summ = {"fired": 0, "blind": 0, "skipped": 0, "error": 0, "silent": 0, "false-alarm": 0}
     for r in res:
         summ[r["result"]] += 1
     out["variants"] = {"summary": summ, "results": res, "wall_s": round(time.time() - t0, 1)}
     for r in res:
         if r["result"] == "blind":
             print("SELFTEST-BLIND property=%s variant=%s (reported; does not change the verdict on /repo)" % (ctx.prop, r["variant"]))
+        if r["result"] == "false-alarm":
+            print("SELFTEST-FALSE-ALARM property=%s variant=%s keys=%s (reported; does not change the verdict on /repo)" % (ctx.prop, r["variant"], r.get("keys")))
     return out
